@@ -104,7 +104,7 @@ example : filterPair .suffix { cfg := cfgOf .dice (1 / 2), allowEmpty := false }
 example : ∃ fr, filterTables .position { cfg := cfgOf .dice (1 / 2) } exA exT exToks 4 = .ok fr ∧
     ∃ row ∈ fr.rows, rowKeys row = (Cell.int 2, Cell.int 8) := by
   obtain ⟨fr, hfr⟩ := EntryFilters.filterTables_total .position { cfg := cfgOf .dice (1 / 2) } exA exT exToks 4 exL exR
-    ex_valid ex_keys
+    ex_valid ex_keys (by decide +kernel)
   exact ⟨fr, hfr, (filter_tables_both_empty_iff .position _ exA exT exToks 4 exL exR fr ex_valid ex_keys (by decide) hfr
     [.int 2, .str ""] [.int 8, .str ""] (by decide) (by decide) (by unfold Present; decide) (by unfold Present; decide)
     (by decide) (by decide) (Or.inr (Or.inr rfl))).2 rfl⟩
